@@ -1,9 +1,13 @@
 /-
 A small executable model of how ninja (1.13) decides what to re-run, for a linear chain of edges
-source → out₁ → out₂ → … : an edge is dirty when its output is missing, it has no log entry, the
-logged command hash differs, or an input's mtime is newer than the mtime recorded in the log — or an
-upstream edge is dirty.  File contents are abstract numbers; step k computes `f k (input content, cmd)`.
-Transcription of third-party behaviour; validated against the real binary by the CLI histories of C09.
+source → out₁ → out₂ → … (no restat, no generator, no depfile — the kind of edge nanoemoji writes).
+`RecomputeOutputDirty`: an edge is dirty when its output is missing, the output is older than the
+input, it has no log entry, the logged command hash differs, or the log's recorded time (the start
+time of the command) is older than the input — or an upstream edge is dirty.  A command that fails
+leaves whatever it wrote and does NOT update the log; the build stops there.
+File contents are abstract numbers; step k computes `stepFn k (input content) cmd`.
+Transcription of third-party behaviour; validated against the real binary (`suite_ninja_model` of C09
+drives /venv/bin/ninja and this model through the same histories).
 -/
 namespace NanoVerif
 
@@ -14,7 +18,7 @@ deriving DecidableEq, Repr
 
 structure NLog where
   cmd : Nat
-  mtime : Nat      -- newest input mtime seen when the edge last ran
+  mtime : Nat      -- start time of the command when the edge last SUCCEEDED
 deriving DecidableEq, Repr
 
 structure BuildDir where
@@ -26,35 +30,87 @@ deriving DecidableEq, Repr
 
 def stepFn (k : Nat) (input cmd : Nat) : Nat := input * 31 + cmd * 7 + k + 1
 
-/-- one fault-free invocation with commands `cmds` (edge k runs `cmds[k]`) -/
+/-- ninja's per-edge test (upstream dirtiness is handled by the caller) -/
+def edgeDirty (cmd : Nat) (input : NFile) (out : Option NFile) (log : Option NLog) : Bool :=
+  match out, log with
+  | some o, some l => l.cmd != cmd || decide (l.mtime < input.mtime) || decide (o.mtime < input.mtime)
+  | _, _ => true
+
+/-- one fault-free invocation with commands `cmds` (edge k runs `cmds[k]`); `ud` = an upstream edge ran -/
 def invokeAux : Nat → List Nat → NFile → Bool → List (Option NFile) → List (Option NLog) → Nat →
     List (Option NFile) × List (Option NLog) × Nat
   | _, [], _, _, _, _, clock => ([], [], clock)
-  | k, cmd :: cmds, input, upstreamDirty, outs, logs, clock =>
-    let out := outs.head?.join
-    let log := logs.head?.join
-    let dirty := upstreamDirty || out.isNone || (match log with
-      | none => true
-      | some l => l.cmd != cmd || decide (l.mtime < input.mtime))
-    let (out', log', clock') :=
-      if dirty then ((⟨stepFn k input.content cmd, clock + 1⟩ : NFile), (⟨cmd, input.mtime⟩ : NLog), clock + 1)
-      else (out.getD ⟨0, 0⟩, log.getD ⟨0, 0⟩, clock)
-    let rest := invokeAux (k + 1) cmds out' dirty outs.tail logs.tail clock'
-    (some out' :: rest.1, some log' :: rest.2.1, rest.2.2)
+  | k, cmd :: cmds, input, ud, outs, logs, clock =>
+    if ud || edgeDirty cmd input outs.head?.join logs.head?.join then
+      let o' : NFile := ⟨stepFn k input.content cmd, clock + 1⟩
+      let rest := invokeAux (k + 1) cmds o' true outs.tail logs.tail (clock + 1)
+      (some o' :: rest.1, some ⟨cmd, clock + 1⟩ :: rest.2.1, rest.2.2)
+    else
+      match outs.head?.join with
+      | some o =>
+        let rest := invokeAux (k + 1) cmds o false outs.tail logs.tail clock
+        (some o :: rest.1, logs.head?.join :: rest.2.1, rest.2.2)
+      | none => ([], [], clock)   -- unreachable: a missing output is dirty
 
 def invoke (cmds : List Nat) (b : BuildDir) : BuildDir :=
   let r := invokeAux 0 cmds b.source false b.outs b.logs b.clock
   { b with outs := r.1, logs := r.2.1, clock := r.2.2 }
 
-def cleanBuild (cmds : List Nat) (source : NFile) : BuildDir :=
-  invoke cmds ⟨source, [], [], source.mtime⟩
+def emptyDir (source : NFile) : BuildDir := ⟨source, [], [], source.mtime⟩
+
+def cleanBuild (cmds : List Nat) (source : NFile) : BuildDir := invoke cmds (emptyDir source)
+
+/-- contents of all outputs (what a byte comparison of the build directory sees) -/
+def contents (outs : List (Option NFile)) : List (Option Nat) := outs.map (·.map (·.content))
 
 /-- the final output content -/
 def finalContent (b : BuildDir) : Option Nat := (b.outs.getLast?.join).map (·.content)
 
-/-- a user edit: new content, mtime = now -/
+/-- a user edit: new content, mtime = now (MonotoneMtime) -/
 def edit (b : BuildDir) (content : Nat) : BuildDir := { b with source := ⟨content, b.clock + 1⟩, clock := b.clock + 1 }
 /-- `mv other source` where `other` was written at time `t` (possibly long ago) -/
 def renameOver (b : BuildDir) (content t : Nat) : BuildDir := { b with source := ⟨content, t⟩ }
+
+/-- what a failing step leaves at its output path -/
+inductive Leave where
+  | removed                 -- nothing (an atomic writer, or ninja's own cleanup on SIGINT)
+  | kept                    -- it died before touching the output
+  | garbage (content : Nat) -- a truncated file written "now"
+  | late                    -- the step did all its work and then died: a complete output that is never logged
+deriving DecidableEq, Repr
+
+/-- an invocation in which the step of edge `j` fails if it runs.  Returns the directory and
+`visible` = ninja will still see the failed edge as dirty on mtime/log grounds alone (so the failure
+cannot be masked by a later change of the command line back to a logged value). -/
+def faultAux (j : Nat) (leave : Leave) : Nat → List Nat → NFile → Bool → List (Option NFile) → List (Option NLog) → Nat →
+    List (Option NFile) × List (Option NLog) × Nat × Bool
+  | _, [], _, _, _, _, clock => ([], [], clock, true)
+  | k, cmd :: cmds, input, ud, outs, logs, clock =>
+    if ud || edgeDirty cmd input outs.head?.join logs.head?.join then
+      if k = j then
+        let out' : Option NFile := match leave with
+          | .removed => none
+          | .kept => outs.head?.join
+          | .garbage g => some ⟨g, clock + 1⟩
+          | .late => some ⟨stepFn k input.content cmd, clock + 1⟩
+        let visible : Bool := match leave, logs.head?.join with
+          | .garbage _, some l => ud || decide (l.mtime < input.mtime)
+          | .late, some l => ud || decide (l.mtime < input.mtime)
+          | _, _ => true
+        (out' :: outs.tail, logs.head?.join :: logs.tail, clock + 1, visible)
+      else
+        let o' : NFile := ⟨stepFn k input.content cmd, clock + 1⟩
+        let rest := faultAux j leave (k + 1) cmds o' true outs.tail logs.tail (clock + 1)
+        (some o' :: rest.1, some ⟨cmd, clock + 1⟩ :: rest.2.1, rest.2.2.1, rest.2.2.2)
+    else
+      match outs.head?.join with
+      | some o =>
+        let rest := faultAux j leave (k + 1) cmds o false outs.tail logs.tail clock
+        (some o :: rest.1, logs.head?.join :: rest.2.1, rest.2.2.1, rest.2.2.2)
+      | none => ([], [], clock, true)
+
+def invokeFault (cmds : List Nat) (j : Nat) (leave : Leave) (b : BuildDir) : BuildDir × Bool :=
+  let r := faultAux j leave 0 cmds b.source false b.outs b.logs b.clock
+  ({ b with outs := r.1, logs := r.2.1, clock := r.2.2.1 }, r.2.2.2)
 
 end NanoVerif
